@@ -102,7 +102,7 @@ SquarePatch ==
 TetraCluster ==
   LET H == Tri3(45, 45, 45, 0, 0, 0)  org == <<0, 0, 0>>  o == <<20, 20, 20>>
       rel == << <<0, 0, 0>>, <<4, 4, 4>>, <<4, 0 - 4, 0 - 4>>, <<0 - 4, 4, 0 - 4>>, <<0 - 4, 0 - 4, 4>>,
-                <<9, 8, 1>>, <<0 - 7, 2, 10>>, <<3, 0 - 11, 6>>, <<0 - 9, 0 - 1, 0 - 8>> >>
+                <<9, 8, 2>>, <<0 - 7, 2, 10>>, <<3, 0 - 11, 7>>, <<0 - 9, 0 - 1, 0 - 8>> >>
       p1 == [i \in 1..9 |-> VAdd(o, rel[i])]
       p2 == [i \in 1..9 |-> VAdd(p1[i], <<(i % 3) - 1, ((2 * i) % 3) - 1, ((i * i) % 3) - 1>>)]
   IN  Mk(10, 3, H, org, <<0, 0, 0>>, <<1, 2, 2, 2, 2, 1, 1, 1, 1>>, <<p1, p2>>, 6, 4)
